@@ -10,7 +10,7 @@
     so a semantic change of a translated Go function breaks the lemma of that function (or of a
     caller) on that run, for ALL inputs, independently of what the sampled correspondence run
     happens to hit. Nothing admitted; no axioms in the integer/bit/byte groups (can, descriptor,
-    wire, netlink, scan); the floating-point groups (physical, apidecide) are on Flocq and depend
+    wire, netlink, scan, dbcid, dbcvalidate, lookup, lintnames); the floating-point groups (physical, apidecide) are on Flocq and depend
     on the standard-library axioms its lemmas use, and on nothing else (checked by
     checks/translate_tie.py against vlib.AXIOM_WHITELIST).
 
@@ -427,6 +427,131 @@ Qed.
 Lemma T_frame_decodeFrame_eq f : Translated.frame_decodeFrame (sc_of f) = fr_of (Wire.decode_frame f).
 Proof. reflexivity. Qed.
 
+(** *** fourth round: unmarshalBinary / marshalBinary and the error-frame accessors.
+    The translated codecs are functions into [option] ([None] = the explicit bounds check
+    [_ = b[15]] panics), exactly as the hand models [unmarshal16] / [marshal16].
+    Preconditions = the Go types: the elements of a []byte are bytes, [frame.data] is a [8]byte. *)
+From CanVerif Require Socketcan.WireSpec Socketcan.WireProofs.
+
+Definition ef_of (e : Wire.errframe) : Translated.ErrorFrame :=
+  {| Translated.ErrorFrame_ErrorClass := Wire.eclass e; Translated.ErrorFrame_LostArbitrationBit := Wire.elostarb e;
+     Translated.ErrorFrame_ControllerError := Wire.ectrl e; Translated.ErrorFrame_ProtocolError := Wire.eprot e;
+     Translated.ErrorFrame_ProtocolViolationErrorLocation := Wire.eprotloc e;
+     Translated.ErrorFrame_TransceiverError := Wire.etrx e;
+     Translated.ErrorFrame_ControllerSpecificInformation := Wire.ecsi e |}.
+
+(** type ranges of socketcan.frame *)
+Definition wf_sc (f : Wire.scframe) : Prop :=
+  in_u 32 (Wire.idflags f) /\ in_u 8 (Wire.dlc f) /\ length (Wire.scdata f) = 8%nat /\ Wire.bytes (Wire.scdata f).
+
+Lemma len16_cases (b : list Z) :
+  (Z.of_nat (length b) <? 16) = false ->
+  exists b0 b1 b2 b3 b4 b5 b6 b7 b8 b9 b10 b11 b12 b13 b14 b15 tl,
+    b = b0 :: b1 :: b2 :: b3 :: b4 :: b5 :: b6 :: b7 :: b8 :: b9 :: b10 :: b11 :: b12 :: b13 :: b14 :: b15 :: tl.
+Proof.
+  intros H. apply Z.ltb_ge in H.
+  do 16 (destruct b as [| ? b]; [cbn [length] in H; lia |]).
+  repeat eexists.
+Qed.
+
+Lemma len8_cases (d : list Z) : length d = 8%nat ->
+  exists d0 d1 d2 d3 d4 d5 d6 d7, d = [d0; d1; d2; d3; d4; d5; d6; d7].
+Proof.
+  intros H. do 8 (destruct d as [| ? d]; [discriminate |]). destruct d; [| discriminate]. repeat eexists.
+Qed.
+
+Lemma bytes_len_le15 (b : go_bytes) : (bytes_len b <=? 15) = (Z.of_nat (length b) <? Wire.lengthOfFrame).
+Proof.
+  unfold bytes_len, Wire.lengthOfFrame.
+  destruct (Z.leb_spec (Z.of_nat (length b)) 15), (Z.ltb_spec (Z.of_nat (length b)) 16); auto; lia.
+Qed.
+
+(** unmarshalBinary overwrites every field of the receiver, whatever it held before ([f0]) *)
+Lemma T_frame_unmarshalBinary_eq f0 b :
+  length (Translated.frame_data f0) = 8%nat -> Wire.bytes b ->
+  Translated.frame_unmarshalBinary f0 b = option_map sc_of (Wire.unmarshal16 b).
+Proof.
+  intros Hd Hb. unfold Translated.frame_unmarshalBinary, Wire.unmarshal16.
+  rewrite bytes_len_le15.
+  destruct (Z.of_nat (length b) <? Wire.lengthOfFrame) eqn:E; [reflexivity |].
+  rewrite (WireProofs.get_u32_word b Hb).
+  destruct (len16_cases b E) as (b0 & b1 & b2 & b3 & b4 & b5 & b6 & b7 & b8 & b9 & b10 & b11 & b12 & b13 & b14 & b15 & tl & ->).
+  destruct f0 as [w0 l0 d0]. cbn [Translated.frame_data] in Hd.
+  destruct (len8_cases d0 Hd) as (? & ? & ? & ? & ? & ? & ? & ? & ->).
+  reflexivity.
+Qed.
+
+(** marshalBinary returns the final contents of the slice it writes through *)
+Lemma T_frame_marshalBinary_eq f b :
+  length (Wire.scdata f) = 8%nat ->
+  Translated.frame_marshalBinary (sc_of f) b = Wire.marshal16 b f.
+Proof.
+  intros Hd. unfold Translated.frame_marshalBinary, Wire.marshal16.
+  rewrite bytes_len_le15.
+  destruct (Z.of_nat (length b) <? Wire.lengthOfFrame) eqn:E; [reflexivity |].
+  destruct (len16_cases b E) as (b0 & b1 & b2 & b3 & b4 & b5 & b6 & b7 & b8 & b9 & b10 & b11 & b12 & b13 & b14 & b15 & tl & ->).
+  destruct f as [w l d]. cbn [Wire.scdata] in Hd.
+  destruct (len8_cases d Hd) as (? & ? & ? & ? & ? & ? & ? & ? & ->).
+  cbn [sc_of Wire.idflags Wire.dlc Wire.scdata Translated.frame_idAndFlags Translated.frame_dataLengthCode Translated.frame_data].
+  rewrite bytes_set_len, binary_le_PutUint32_len.
+  unfold binary_le_PutUint32, le_bytes4, Wire.put_u32. rewrite !le_byte_mod by lia.
+  change (8 * 0) with 0. change (8 * 1) with 8. change (8 * 2) with 16. change (8 * 3) with 24. rewrite Z.shiftr_0_r.
+  unfold bytes_copy_at, bytes_splice, bytes_set, bytes_slice, bytes_len, Wire.lengthOfPadding, Wire.indexOfPadding.
+  rewrite Nat2Z.id.
+  change (Z.to_nat 0) with 0%nat. change (Z.to_nat 4) with 4%nat. change (Z.to_nat 8) with 8%nat.
+  cbn [length Nat.sub firstn skipn list_splice list_set app].
+  rewrite firstn_nil, list_splice_nil. reflexivity.
+Qed.
+
+Lemma T_frame_errorClass_eq f : in_u 32 (Wire.idflags f) ->
+  Translated.frame_errorClass (sc_of f) = Wire.eclass (Wire.decode_error_frame f).
+Proof.
+  intros H. unfold Translated.frame_errorClass. cbn [sc_of Translated.frame_idAndFlags].
+  rewrite wrap_u_small; [reflexivity |]. apply go_andnot_range_u; [lia | exact H | apply in_u_lit; reflexivity].
+Qed.
+
+Lemma bytes_nth_in_u8 d i : Wire.bytes d -> in_u 8 (nth i d 0).
+Proof.
+  intros H. revert i. induction H as [| h t Hh Ht IH]; intros [| i]; cbn [nth]; auto;
+    try (unfold in_u; change (2 ^ 8) with 256; unfold Wire.is_byte in *; lia).
+Qed.
+
+Lemma T_frame_lostArbitrationBit_eq f :
+  Translated.frame_lostArbitrationBit (sc_of f) = Wire.elostarb (Wire.decode_error_frame f).
+Proof. reflexivity. Qed.
+
+Lemma T_frame_controllerError_eq f : Wire.bytes (Wire.scdata f) ->
+  Translated.frame_controllerError (sc_of f) = Wire.ectrl (Wire.decode_error_frame f).
+Proof. intros H. unfold Translated.frame_controllerError. rewrite wrap_u_small; [reflexivity | apply bytes_nth_in_u8, H]. Qed.
+
+Lemma T_frame_protocolError_eq f : Wire.bytes (Wire.scdata f) ->
+  Translated.frame_protocolError (sc_of f) = Wire.eprot (Wire.decode_error_frame f).
+Proof. intros H. unfold Translated.frame_protocolError. rewrite wrap_u_small; [reflexivity | apply bytes_nth_in_u8, H]. Qed.
+
+Lemma T_frame_protocolErrorLocation_eq f : Wire.bytes (Wire.scdata f) ->
+  Translated.frame_protocolErrorLocation (sc_of f) = Wire.eprotloc (Wire.decode_error_frame f).
+Proof. intros H. unfold Translated.frame_protocolErrorLocation. rewrite wrap_u_small; [reflexivity | apply bytes_nth_in_u8, H]. Qed.
+
+Lemma T_frame_transceiverError_eq f : Wire.bytes (Wire.scdata f) ->
+  Translated.frame_transceiverError (sc_of f) = Wire.etrx (Wire.decode_error_frame f).
+Proof. intros H. unfold Translated.frame_transceiverError. rewrite wrap_u_small; [reflexivity | apply bytes_nth_in_u8, H]. Qed.
+
+Lemma T_frame_controllerSpecificInformation_eq f : length (Wire.scdata f) = 8%nat ->
+  Translated.frame_controllerSpecificInformation (sc_of f) = Wire.ecsi (Wire.decode_error_frame f).
+Proof.
+  intros Hd. destruct f as [w l d]. cbn [Wire.scdata] in Hd.
+  destruct (len8_cases d Hd) as (? & ? & ? & ? & ? & ? & ? & ? & ->). reflexivity.
+Qed.
+
+Lemma T_frame_decodeErrorFrame_eq f : wf_sc f ->
+  Translated.frame_decodeErrorFrame (sc_of f) = ef_of (Wire.decode_error_frame f).
+Proof.
+  intros (Hw & _ & Hl & Hb). unfold Translated.frame_decodeErrorFrame, ef_of.
+  rewrite T_frame_errorClass_eq, T_frame_lostArbitrationBit_eq, T_frame_controllerError_eq, T_frame_protocolError_eq,
+    T_frame_protocolErrorLocation_eq, T_frame_transceiverError_eq, T_frame_controllerSpecificInformation_eq by assumption.
+  reflexivity.
+Qed.
+
 (* @group physical requires can descriptor *)
 (** ** pkg/descriptor/signal.go, floating-point part  (models: Descriptor/Physical.v; semantics of
        the float operators: Translate/GoSemFloat.v).  The T_ lemmas of this group depend on the
@@ -566,14 +691,15 @@ From CanVerif Require Import Translate.FloatBits Gen.Message Gen.Api.
 Definition sig_of_a (s : signal) : Translated.Signal :=
   Translated.set_Signal_ValueDescriptions
     (Translated.set_Signal_IsFloat (sig_of_p s) (s_float s))
-    (Z.of_nat (length (s_value_descriptions s))).
+    (map (fun _ => Translated.zero_ValueDescription) (s_value_descriptions s)).
 
 Lemma sig_of_a_length s : Translated.Signal_Length (sig_of_a s) = s_length s. Proof. reflexivity. Qed.
 Lemma sig_of_a_signed s : Translated.Signal_IsSigned (sig_of_a s) = s_signed s. Proof. reflexivity. Qed.
 Lemma sig_of_a_float s : Translated.Signal_IsFloat (sig_of_a s) = s_float s. Proof. reflexivity. Qed.
+(** (only [len(s.ValueDescriptions)] is used by this group: the elements are placeholders) *)
 Lemma sig_of_a_vds s :
-  Translated.Signal_ValueDescriptions (sig_of_a s) = Z.of_nat (length (s_value_descriptions s)).
-Proof. reflexivity. Qed.
+  list_len (Translated.Signal_ValueDescriptions (sig_of_a s)) = Z.of_nat (length (s_value_descriptions s)).
+Proof. unfold list_len. cbn. now rewrite map_length. Qed.
 Lemma sig_of_a_offset s : Translated.Signal_Offset (sig_of_a s) = go_math_Float64frombits (s_offset s). Proof. reflexivity. Qed.
 Lemma sig_of_a_scale s : Translated.Signal_Scale (sig_of_a s) = go_math_Float64frombits (s_scale s). Proof. reflexivity. Qed.
 Lemma sig_of_a_min s : Translated.Signal_Min (sig_of_a s) = go_math_Float64frombits (s_min s). Proof. reflexivity. Qed.
@@ -928,4 +1054,346 @@ Proof.
   unfold Receiver.scan_frames. change Wire.lengthOfFrame with 16.
   destruct (Z.ltb_spec (Z.of_nat (length data)) 16) as [H | H]; cbn [fst snd]; [discriminate |].
   intros E. assert (Et : t = firstn 16 data) by congruence. rewrite Et, firstn_length. lia.
+Qed.
+
+(* @group dbcid *)
+(** ** pkg/dbc/messageid.go  (models: Dbc/Ast.v [msgid_is_extended], [msgid_to_can], [msgid_valid];
+       used by the parser model Dbc/Parser.v [p_message_id] and by Dbc/Compile*.v).
+       Precondition = the Go type: MessageID is a uint32. *)
+From CanVerif Require Dbc.Ast.
+
+Lemma T_MessageID_IsExtended_eq m : Translated.MessageID_IsExtended m = Dbc.Ast.msgid_is_extended m.
+Proof. reflexivity. Qed.
+
+(** [m &^ 0x80000000] on a uint32 clears bit 31: the low 31 bits *)
+Lemma andnot_flag31 m : in_u 32 m -> go_andnot m 2147483648 = Z.land m 2147483647.
+Proof.
+  intros [H0 H1]. unfold go_andnot. apply Z.bits_inj'. intros i Hi.
+  rewrite Z.ldiff_spec, Z.land_spec.
+  change 2147483648 with (2 ^ 31). change 2147483647 with (Z.ones 31).
+  rewrite Z.pow2_bits_eqb by lia. rewrite Z.testbit_ones_nonneg by lia.
+  destruct (Z.eqb_spec 31 i) as [<- | Hne].
+  - cbn. now rewrite andb_false_r.
+  - destruct (Z.ltb_spec i 31); cbn; [now rewrite andb_true_r |].
+    rewrite andb_false_r, andb_true_r.
+    assert (Hm : m = 0 \/ 0 < m) by lia. destruct Hm as [-> | Hm]; [apply Z.bits_0 |].
+    apply Z.bits_above_log2; [lia |]. apply Z.log2_lt_pow2; [lia |]. eapply Z.lt_le_trans; [exact H1 |].
+    apply Z.pow_le_mono_r; lia.
+Qed.
+
+Lemma T_MessageID_ToCAN_eq m : in_u 32 m -> Translated.MessageID_ToCAN m = Dbc.Ast.msgid_to_can m.
+Proof.
+  intros H. unfold Translated.MessageID_ToCAN, Dbc.Ast.msgid_to_can.
+  rewrite wrap_u_small; [apply andnot_flag31, H |].
+  apply go_andnot_range_u; [lia | exact H | apply in_u_lit; reflexivity].
+Qed.
+
+(** Validate: [err_nil] = [true] = the model's "valid" *)
+Lemma T_MessageID_Validate_eq m : in_u 32 m -> Translated.MessageID_Validate m = Dbc.Ast.msgid_valid m.
+Proof.
+  intros H. unfold Translated.MessageID_Validate, Dbc.Ast.msgid_valid.
+  rewrite T_MessageID_IsExtended_eq, (T_MessageID_ToCAN_eq m H).
+  change Dbc.Ast.msgid_independent with 3221225472.
+  destruct (m =? 3221225472); [reflexivity |].
+  destruct (Dbc.Ast.msgid_is_extended m); cbn [andb negb].
+  - rewrite Z.leb_antisym. destruct (536870911 <? Dbc.Ast.msgid_to_can m); reflexivity.
+  - rewrite Z.leb_antisym. destruct (2047 <? Dbc.Ast.msgid_to_can m); reflexivity.
+Qed.
+
+(* @group dbcvalidate *)
+(** ** internal/identifiers/char.go and the Validate methods of pkg/dbc's small enumeration types
+       (models: Dbc/Parser.v [is_alpha], [is_num] - the character classes of Dbc/Validate.v's
+       [validate_loop] and of [ident_valid] -, Dbc/Lint.v [is_alpha_char], [is_num_char];
+       [p_small_enum], [access_type_of], [attr_type_of], [object_type_of] of the parser model:
+       the parser accepts the token iff Validate returns nil).  No preconditions. *)
+From CanVerif Require Dbc.Ast Dbc.Parser Dbc.Lint.
+
+Lemma T_IsAlphaChar_eq r : Translated.IsAlphaChar r = Dbc.Parser.is_alpha r.
+Proof. reflexivity. Qed.
+Lemma T_IsAlphaChar_eq' r : Translated.IsAlphaChar r = Dbc.Lint.is_alpha_char r.
+Proof. reflexivity. Qed.
+Lemma T_IsNumChar_eq r : Translated.IsNumChar r = Dbc.Parser.is_num r.
+Proof. reflexivity. Qed.
+Lemma T_IsNumChar_eq' r : Translated.IsNumChar r = Dbc.Lint.is_num_char r.
+Proof. reflexivity. Qed.
+
+Definition is_some {A : Type} (o : option A) : bool := match o with Some _ => true | None => false end.
+
+Lemma go_string_eqb_bytes_eqb a b : go_string_eqb a b = Dbc.Ast.bytes_eqb a b.
+Proof. revert b; induction a as [| x a IH]; intros [| y b]; cbn; auto. Qed.
+
+(** signalValueType / environmentVariableType: [p_small_enum 2] accepts u iff [u <=? 2] (u a uint64) *)
+Lemma small_enum_le2 s : 0 <= s ->
+  (if s =? 0 then err_nil else if s =? 1 then err_nil else if s =? 2 then err_nil else err_nonnil) = (s <=? 2).
+Proof.
+  intros H. destruct (Z.eqb_spec s 0) as [-> | ?]; [reflexivity |]. destruct (Z.eqb_spec s 1) as [-> | ?]; [reflexivity |].
+  destruct (Z.eqb_spec s 2) as [-> | ?]; [reflexivity |]. unfold err_nonnil. symmetry. apply Z.leb_gt. lia.
+Qed.
+
+Lemma T_SignalValueType_Validate_eq s : in_u 64 s -> Translated.SignalValueType_Validate s = (s <=? 2).
+Proof. intros [H _]. unfold Translated.SignalValueType_Validate. cbv zeta. apply small_enum_le2, H. Qed.
+
+Lemma T_EnvironmentVariableType_Validate_eq e : in_u 64 e -> Translated.EnvironmentVariableType_Validate e = (e <=? 2).
+Proof. intros [H _]. unfold Translated.EnvironmentVariableType_Validate. cbv zeta. apply small_enum_le2, H. Qed.
+
+Lemma T_AccessType_Validate_eq a : Translated.AccessType_Validate a = is_some (Dbc.Parser.access_type_of a).
+Proof.
+  unfold Translated.AccessType_Validate, Dbc.Parser.access_type_of. cbv zeta. change go_string_eqb with Dbc.Ast.bytes_eqb.
+  change [68; 85; 77; 77; 89; 95; 78; 79; 68; 69; 95; 86; 69; 67; 84; 79; 82; 48] with Dbc.Parser.s_ACC0.
+  change [68; 85; 77; 77; 89; 95; 78; 79; 68; 69; 95; 86; 69; 67; 84; 79; 82; 49] with Dbc.Parser.s_ACC1.
+  change [68; 85; 77; 77; 89; 95; 78; 79; 68; 69; 95; 86; 69; 67; 84; 79; 82; 50] with Dbc.Parser.s_ACC2.
+  change [68; 85; 77; 77; 89; 95; 78; 79; 68; 69; 95; 86; 69; 67; 84; 79; 82; 51] with Dbc.Parser.s_ACC3.
+  repeat match goal with |- context [Dbc.Ast.bytes_eqb a ?k] => destruct (Dbc.Ast.bytes_eqb a k); [reflexivity |] end.
+  reflexivity.
+Qed.
+
+Lemma T_AttributeValueType_Validate_eq a : Translated.AttributeValueType_Validate a = is_some (Dbc.Parser.attr_type_of a).
+Proof.
+  unfold Translated.AttributeValueType_Validate, Dbc.Parser.attr_type_of. cbv zeta. change go_string_eqb with Dbc.Ast.bytes_eqb.
+  change [73; 78; 84] with Dbc.Parser.s_INT. change [72; 69; 88] with Dbc.Parser.s_HEX.
+  change [70; 76; 79; 65; 84] with Dbc.Parser.s_FLOAT. change [83; 84; 82; 73; 78; 71] with Dbc.Parser.s_STRING.
+  change [69; 78; 85; 77] with Dbc.Parser.s_ENUM.
+  repeat match goal with |- context [Dbc.Ast.bytes_eqb a ?k] => destruct (Dbc.Ast.bytes_eqb a k); [reflexivity |] end.
+  reflexivity.
+Qed.
+
+(** ObjectType: "" (no object type token, [optional_object_type]'s first branch) or one of the four keywords *)
+Lemma T_ObjectType_Validate_eq o :
+  Translated.ObjectType_Validate o = (Dbc.Ast.bytes_eqb o [] || is_some (Dbc.Parser.object_type_of o)).
+Proof.
+  unfold Translated.ObjectType_Validate, Dbc.Parser.object_type_of. cbv zeta. change go_string_eqb with Dbc.Ast.bytes_eqb.
+  change [66; 85; 95] with Dbc.Parser.kw_nodes. change [66; 79; 95] with Dbc.Parser.kw_message.
+  change [83; 71; 95] with Dbc.Parser.kw_signal. change [69; 86; 95] with Dbc.Parser.kw_envvar.
+  destruct (Dbc.Ast.bytes_eqb o []); [reflexivity |]. cbn [orb].
+  repeat match goal with |- context [Dbc.Ast.bytes_eqb o ?k] => destruct (Dbc.Ast.bytes_eqb o k); [reflexivity |] end.
+  reflexivity.
+Qed.
+
+(** *** pkg/dbc/identifier.go Identifier.Validate  (model: Dbc/Validate.v [validate], proved there to be
+    the byte-wise [Parser.ident_valid]).  The loop `for i, r := range id` is [go_range_string]
+    (GoSem.v's own UTF-8 decoding); the model decodes with Scanner.v's [utf8_decode].  The two need
+    not be compared beyond: an ASCII byte is its own rune, anything else gives a rune >= 128, which
+    both sides reject.  The `defer` that rewraps a non-nil error is a no-op on nil-ness. *)
+From CanVerif Require Dbc.Scanner Dbc.Validate.
+
+Lemma ident_loop fuel : forall bs i, 0 <= i ->
+  match go_range_string_fuel fuel (fun v_i v_r (_ : unit) =>
+      if (v_i =? 0) && negb (v_r =? 95) && negb (Translated.IsAlphaChar v_r) then LoopReturn err_nonnil
+      else if (0 <? v_i) && negb (v_r =? 95) && negb (Translated.IsAlphaChar v_r) && negb (Translated.IsNumChar v_r)
+           then LoopReturn err_nonnil else LoopNext tt) i bs tt with
+  | LoopReturn r => r
+  | LoopNext _ => err_nil
+  end = Dbc.Validate.validate_loop fuel i bs.
+Proof.
+  induction fuel as [| fuel IH]; intros bs i Hi; [reflexivity |].
+  destruct bs as [| b0 t]; [reflexivity |].
+  cbn [go_range_string_fuel Dbc.Validate.validate_loop].
+  change Translated.IsAlphaChar with Dbc.Parser.is_alpha. change Translated.IsNumChar with Dbc.Parser.is_num.
+  destruct (go_utf8_decode_cases b0 t) as [[Hlo Eg] | [Hhi (rg & wg & Eg & Hrg & Hwg)]];
+    destruct (Dbc.Validate.decode_cases b0 t) as [[Hlo' Es] | [Hhi' (rs & ws & Es & Hrs)]]; try lia; rewrite Eg, Es.
+  - (* ASCII: the same rune, the same step *)
+    destruct ((i =? 0) && negb (b0 =? 95) && negb (Dbc.Parser.is_alpha b0)); [reflexivity |].
+    destruct ((0 <? i) && negb (b0 =? 95) && negb (Dbc.Parser.is_alpha b0) && negb (Dbc.Parser.is_num b0)); [reflexivity |].
+    apply IH. lia.
+  - (* not ASCII: both runes are >= 128 and are rejected, at the first position or later *)
+    destruct (Dbc.Validate.hi_not_ident rg Hrg) as (-> & -> & ->).
+    destruct (Dbc.Validate.hi_not_ident rs Hrs) as (-> & -> & ->).
+    cbn [negb andb]. rewrite !andb_true_r.
+    destruct (Z.eqb_spec i 0) as [-> | Hne]; [reflexivity |].
+    assert (Hp : (0 <? i) = true) by (apply Z.ltb_lt; lia). rewrite Hp. reflexivity.
+Qed.
+
+Lemma T_Identifier_Validate_eq id : Translated.Identifier_Validate id = Dbc.Validate.validate id.
+Proof.
+  unfold Translated.Identifier_Validate, Dbc.Validate.validate, go_range_string.
+  change (bytes_len id) with (Dbc.Scanner.blen id).
+  destruct (Dbc.Scanner.blen id =? 0); [reflexivity |].
+  destruct (128 <? Dbc.Scanner.blen id); [reflexivity |].
+  apply ident_loop. lia.
+Qed.
+
+(** ... and therefore the byte-wise check the parser model uses *)
+Lemma T_Identifier_Validate_eq' id : Translated.Identifier_Validate id = Dbc.Parser.ident_valid id.
+Proof. rewrite T_Identifier_Validate_eq. apply Dbc.Validate.validate_bytewise. Qed.
+
+(* @group lookup requires can descriptor *)
+(** ** pkg/descriptor: the lookups with loops (fourth round).  database.go Message / Node / Signal,
+       message.go MultiplexerSignal, signal.go ValueDescription / UnmarshalValueDescription
+       (models: Gen/Message.v [find_message], Gen/Api.v [find_mux], Descriptor/Signal.v
+       [value_description], [unmarshal_value_description], Descriptor/Lookup.v [find_node],
+       [find_signal], [db_signal]).  A returned [*S] is [option S]: [Some] of the element value. *)
+From CanVerif Require Import Descriptor.Types Gen.Message.
+From CanVerif Require Gen.Api Descriptor.Lookup.
+
+Definition vd_of (v : value_description) : Translated.ValueDescription :=
+  Translated.set_ValueDescription_Description
+    (Translated.set_ValueDescription_Value Translated.zero_ValueDescription (vdesc_value v)) (vdesc_text v).
+Definition sig_of_l (s : signal) : Translated.Signal :=
+  Translated.set_Signal_ValueDescriptions
+    (Translated.set_Signal_IsMultiplexer
+       (Translated.set_Signal_Name (Translated.set_Signal_IsSigned (sig_of s) (s_signed s)) (s_name s))
+       (s_multiplexer s))
+    (map vd_of (s_value_descriptions s)).
+Definition msg_of (m : message) : Translated.Message :=
+  Translated.set_Message_Signals (Translated.set_Message_ID Translated.zero_Message (msg_id m)) (map sig_of_l (msg_signals m)).
+Definition node_of (n : node) : Translated.Node := Translated.set_Node_Name Translated.zero_Node (node_name n).
+Definition db_of (db : database) : Translated.Database :=
+  Translated.set_Database_Nodes
+    (Translated.set_Database_Messages Translated.zero_Database (map msg_of (db_messages db)))
+    (map node_of (db_nodes db)).
+
+(** (found element, true) / (nil, false) *)
+Definition found {A B : Type} (conv : A -> B) (o : option A) : option B * bool :=
+  match o with Some x => (Some (conv x), true) | None => (None, false) end.
+
+Lemma go_string_eqb_name_eqb a b : go_string_eqb a b = Lookup.name_eqb a b.
+Proof. revert b; induction a as [| x a IH]; intros [| y b]; cbn; auto. Qed.
+
+Lemma T_Database_Message_eq db id :
+  Translated.Database_Message (db_of db) id = found msg_of (find_message (db_messages db) id).
+Proof.
+  unfold Translated.Database_Message.
+  change (Translated.Database_Messages (db_of db)) with (map msg_of (db_messages db)).
+  generalize 0 as i. induction (db_messages db) as [| m tl IH]; intros i; [reflexivity |].
+  cbn [map go_range find_message go_deref].
+  change (Translated.Message_ID (msg_of m)) with (msg_id m).
+  destruct (msg_id m =? id); [reflexivity | apply IH].
+Qed.
+
+Lemma T_Database_Node_eq db name :
+  Translated.Database_Node (db_of db) name = found node_of (Lookup.find_node (db_nodes db) name).
+Proof.
+  unfold Translated.Database_Node.
+  change (Translated.Database_Nodes (db_of db)) with (map node_of (db_nodes db)).
+  generalize 0 as i. induction (db_nodes db) as [| n tl IH]; intros i; [reflexivity |].
+  cbn [map go_range Lookup.find_node go_deref].
+  change (Translated.Node_Name (node_of n)) with (node_name n). rewrite go_string_eqb_name_eqb.
+  destruct (Lookup.name_eqb (node_name n) name); [reflexivity | apply IH].
+Qed.
+
+Lemma find_signal_loop ss name i :
+  match go_range (fun (_ : Z) (v_s__ : Translated.Signal) (_ : unit) =>
+      let v_s := Some v_s__ in
+      if go_string_eqb (Translated.Signal_Name (go_deref Translated.zero_Signal v_s)) name
+      then LoopReturn (v_s, true) else LoopNext tt) i (map sig_of_l ss) tt with
+  | LoopReturn r => r
+  | LoopNext _ => (None, false)
+  end = found sig_of_l (Lookup.find_signal ss name).
+Proof.
+  revert i. induction ss as [| s tl IH]; intros i; [reflexivity |].
+  cbn [map go_range Lookup.find_signal go_deref].
+  change (Translated.Signal_Name (sig_of_l s)) with (s_name s). rewrite go_string_eqb_name_eqb.
+  destruct (Lookup.name_eqb (s_name s) name); [reflexivity | apply IH].
+Qed.
+
+Lemma T_Database_Signal_eq db id name :
+  Translated.Database_Signal (db_of db) id name = found sig_of_l (Lookup.db_signal db id name).
+Proof.
+  unfold Translated.Database_Signal, Lookup.db_signal. rewrite T_Database_Message_eq.
+  destruct (find_message (db_messages db) id) as [m |]; cbn [found negb go_deref]; [| reflexivity].
+  change (Translated.Message_Signals (msg_of m)) with (map sig_of_l (msg_signals m)).
+  apply find_signal_loop.
+Qed.
+
+Lemma T_Message_MultiplexerSignal_eq m :
+  Translated.Message_MultiplexerSignal (msg_of m) = found sig_of_l (Api.find_mux (msg_signals m)).
+Proof.
+  unfold Translated.Message_MultiplexerSignal.
+  change (Translated.Message_Signals (msg_of m)) with (map sig_of_l (msg_signals m)).
+  generalize 0 as i. induction (msg_signals m) as [| s tl IH]; intros i; [reflexivity |].
+  cbn [map go_range Api.find_mux go_deref].
+  change (Translated.Signal_IsMultiplexer (sig_of_l s)) with (s_multiplexer s).
+  destruct (s_multiplexer s); [reflexivity | apply IH].
+Qed.
+
+(** (description, true) / ("", false) *)
+Definition described (o : option bytes) : go_string * bool :=
+  match o with Some t => (t, true) | None => ([], false) end.
+
+Lemma T_Signal_ValueDescription_eq s value :
+  Translated.Signal_ValueDescription (sig_of_l s) value = described (Descriptor.Signal.value_description (s_value_descriptions s) value).
+Proof.
+  unfold Translated.Signal_ValueDescription.
+  change (Translated.Signal_ValueDescriptions (sig_of_l s)) with (map vd_of (s_value_descriptions s)).
+  generalize 0 as i. induction (s_value_descriptions s) as [| v tl IH]; intros i; [reflexivity |].
+  cbn [map go_range Descriptor.Signal.value_description go_deref].
+  change (Translated.ValueDescription_Value (vd_of v)) with (vdesc_value v).
+  change (Translated.ValueDescription_Description (vd_of v)) with (vdesc_text v).
+  destruct (vdesc_value v =? value); [reflexivity | apply IH].
+Qed.
+
+(** callees on [sig_of_l] (they read only fields that [sig_of] sets) *)
+Lemma T_Signal_UnmarshalUnsigned_eq_l s d :
+  valid_data d -> Translated.Signal_UnmarshalUnsigned (sig_of_l s) d = unmarshal_unsigned s d.
+Proof. exact (T_Signal_UnmarshalUnsigned_eq s d). Qed.
+Lemma T_Signal_UnmarshalSigned_eq_l s d :
+  valid_data d -> in_u 8 (s_start s) -> Translated.Signal_UnmarshalSigned (sig_of_l s) d = unmarshal_signed s d.
+Proof. exact (T_Signal_UnmarshalSigned_eq s d). Qed.
+
+Lemma T_Signal_UnmarshalValueDescription_eq s d :
+  valid_data d -> in_u 8 (s_start s) ->
+  Translated.Signal_UnmarshalValueDescription (sig_of_l s) d = described (unmarshal_value_description s d).
+Proof.
+  intros Hd Hs. unfold Translated.Signal_UnmarshalValueDescription, unmarshal_value_description. cbv zeta.
+  change (Translated.Signal_ValueDescriptions (sig_of_l s)) with (map vd_of (s_value_descriptions s)).
+  change (Translated.Signal_IsSigned (sig_of_l s)) with (s_signed s).
+  destruct (s_value_descriptions s) as [| v tl] eqn:E; [reflexivity |].
+  replace (list_len (map vd_of (v :: tl)) =? 0) with false
+    by (symmetry; apply Z.eqb_neq; unfold list_len; cbn [map length]; lia).
+  rewrite <- E. destruct (s_signed s).
+  - rewrite T_Signal_UnmarshalSigned_eq_l by assumption. apply T_Signal_ValueDescription_eq.
+  - rewrite T_Signal_UnmarshalUnsigned_eq_l by assumption. rewrite T_Signal_ValueDescription_eq.
+    rewrite wrap_s64_u; [reflexivity |]. unfold unmarshal_unsigned.
+    destruct (s_big_endian s); [apply ubits_be_in_u64 | apply ubits_le_in_u64; destruct Hs; lia].
+Qed.
+
+(* @group lintnames requires dbcvalidate *)
+(** ** internal/identifiers/case.go IsCamelCase  (model: Dbc/Lint.v [is_camel_case], used by the
+       analyzers messagenames / signalnames).  unicode.IsDigit / unicode.IsUpper have no model: the
+       hand model takes them as oracles (Section variables), the translated function as its two
+       leading parameters; the lemma holds for EVERY pair of functions.  The runes of the string:
+       GoSem.v's [go_utf8_decode] against Lint.v's [decode_first] (equal on every non-empty input).
+       Precondition: a Go string has fewer than 2^63 bytes (the counter i++ cannot wrap). *)
+From CanVerif Require Dbc.Lint.
+
+Lemma decode_first_go b0 t :
+  Dbc.Lint.decode_first (b0 :: t) = (fst (go_utf8_decode (b0 :: t)), Z.to_nat (snd (go_utf8_decode (b0 :: t)))).
+Proof.
+  unfold Dbc.Lint.decode_first, go_utf8_decode, Dbc.Lint.is_cont, utf8_cont, Dbc.Lint.rune_error. cbv zeta.
+  repeat match goal with
+         | |- context [if ?c then _ else _] => destruct c
+         | |- context [match ?l with [] => _ | _ :: _ => _ end] => destruct l
+         end; reflexivity.
+Qed.
+
+Lemma camel_loop_eq (ud uu : Z -> bool) fuel : forall bs k i,
+  0 <= i -> i + Z.of_nat (length bs) < 2 ^ 63 ->
+  match go_range_string_fuel fuel (fun (_ : Z) v_r v_i =>
+      if ud v_r then LoopNext v_i
+      else if ((v_i =? 0) && negb (uu v_r)) || (negb (Translated.IsAlphaChar v_r) && negb (Translated.IsNumChar v_r))
+           then LoopReturn false
+           else let v_i0 := wrap_s 64 (v_i + 1) in LoopNext v_i0) k bs i with
+  | LoopReturn r => r
+  | LoopNext _ => true
+  end = Dbc.Lint.camel_loop ud uu i (Dbc.Lint.runes_fuel fuel bs).
+Proof.
+  induction fuel as [| fuel IH]; intros bs k i Hi Hlen; [reflexivity |].
+  destruct bs as [| b0 t]; [reflexivity |].
+  cbn [go_range_string_fuel Dbc.Lint.runes_fuel]. rewrite decode_first_go.
+  pose proof (go_utf8_decode_width b0 t) as Hw.
+  destruct (go_utf8_decode (b0 :: t)) as [r w]. cbn [fst snd] in *. cbn [Dbc.Lint.camel_loop].
+  change Translated.IsAlphaChar with Dbc.Lint.is_alpha_char. change Translated.IsNumChar with Dbc.Lint.is_num_char.
+  assert (Hsk : Z.of_nat (length (skipn (Z.to_nat w) (b0 :: t))) <= Z.of_nat (length (b0 :: t)) - 1)
+    by (rewrite skipn_length; cbn [length]; lia).
+  cbn [length] in Hlen, Hsk.
+  destruct (ud r); [apply IH; lia |].
+  destruct (((i =? 0) && negb (uu r)) || (negb (Dbc.Lint.is_alpha_char r) && negb (Dbc.Lint.is_num_char r))); [reflexivity |].
+  cbv zeta. rewrite wrap_s_small by (unfold in_s; lia). apply IH; lia.
+Qed.
+
+Lemma T_IsCamelCase_eq ud uu s : bytes_len s < 2 ^ 63 ->
+  Translated.IsCamelCase ud uu s = Dbc.Lint.is_camel_case ud uu s.
+Proof.
+  intros H. unfold Translated.IsCamelCase, Dbc.Lint.is_camel_case, Dbc.Lint.utf8_runes, go_range_string. cbv zeta.
+  apply camel_loop_eq; [lia | exact H].
 Qed.
